@@ -1,6 +1,7 @@
 package engine
 
 import (
+	"go/token"
 	"fmt"
 	"go/constant"
 	"go/types"
@@ -644,6 +645,28 @@ func (env *SpecEnv) evalCall(x *ECall) specVal {
 		case "real":
 			return specVal{v: leaf(c.ToReal(env.evalTerm(x.Args[0])))}
 		case "iter":
+			if len(x.Args) == 1 {
+				// iter(N): completed iterations of the enclosing range loop with ordinal N
+				n, ok := x.Args[0].(*EInt)
+				if !ok || env.fc == nil {
+					specFail("iter(N) needs a literal loop ordinal")
+				}
+				fi := u.e.fnInfos[env.fc.fn]
+				if fi != nil {
+					for _, l := range fi.loopsIn {
+						if fmt.Sprint(l.ordinal) == n.Val {
+							for _, in := range l.header.Instrs {
+								if phi, ok := in.(*ssa.Phi); ok && phi.Comment == "rangeindex" {
+									if v, ok := env.resolve("$phi:" + phi.Name()); ok {
+										return specVal{v: leaf(c.Add(v.v.T, c.Int(1))), t: types.Typ[types.Int]}
+									}
+								}
+							}
+						}
+					}
+				}
+				specFail("iter(%s): no enclosing range loop with that ordinal", n.Val)
+			}
 			return env.iterCount()
 		case "iterkey":
 			return env.iterKey(env.evalTerm(x.Args[0]))
@@ -861,11 +884,33 @@ func (env *SpecEnv) applySpecFn(sf *SpecFn, args []Expr) specVal {
 func (env *SpecEnv) applyGoFunc(f *types.Func, recv *specVal, args []Expr) specVal {
 	u := env.u
 	fn := u.e.prog.FuncValue(f)
+	sig := f.Type().(*types.Signature)
 	if fn == nil {
+		// interface method: usable in a specification when it has a pure (assumed) contract
+		if sig.Recv() != nil && types.IsInterface(sig.Recv().Type()) && recv != nil {
+			name := methodKey(f)
+			con := u.e.contracts[name]
+			if con == nil || !con.Pure {
+				specFail("interface method %s used in a specification has no pure contract", name)
+			}
+			svs := []*SV{recv.v}
+			for i, a := range args {
+				v := env.eval(a)
+				if i < sig.Params().Len() && types.IsInterface(sig.Params().At(i).Type()) && v.t != nil && !types.IsInterface(v.t) && v.v.T != nil && v.v.T.Sort == SRef {
+					// implicit conversion of a reference-like value (pointer, map) to the interface parameter
+					v.v = leaf(u.makeIface(env.st, env.guard, v.v, v.t))
+				}
+				svs = append(svs, v.v)
+			}
+			res := u.callByContractOrDefault(nil, name, con, sig, true, f.Pkg(), svs, env.st, env.guard, token.NoPos)
+			if sig.Results().Len() == 1 {
+				return specVal{v: res[0], t: sig.Results().At(0).Type()}
+			}
+			return specVal{v: &SV{F: res}, t: sig.Results()}
+		}
 		specFail("no SSA function for %s", f.FullName())
 	}
 	var svs []*SV
-	sig := f.Type().(*types.Signature)
 	if recv != nil {
 		rv := *recv
 		// adjust receiver pointer-ness
